@@ -1418,7 +1418,11 @@ def canon_block(block, fn, counts):
                 reads = [n for n in ast.walk(nxt) if isinstance(n, ast.Name) and n.id == X and isinstance(n.ctx, ast.Load)]
                 total = [n for n in ast.walk(fn) if isinstance(n, ast.Name) and n.id == X]
                 calm = not any(isinstance(n, (ast.Call, ast.Await, ast.Yield, ast.YieldFrom, ast.NamedExpr, ast.Lambda)) for e in (st.test, a_.value, b_.value) for n in ast.walk(e))
-                if len(reads) == 1 and len(total) == 3 and calm:
+                # C, A, B move behind whatever the statement evaluates before it reads X: only reading calls may stand there
+                upos_ = (reads[0].lineno, reads[0].col_offset) if len(reads) == 1 else (0, 0)
+                early_ = [n for n in ast.walk(nxt) if isinstance(n, ast.Call) and len(reads) == 1 and not any(x is reads[0] for x in ast.walk(n))
+                          and (getattr(n, "end_lineno", n.lineno), getattr(n, "end_col_offset", 0)) <= upos_ and not _pure_call(n)]
+                if len(reads) == 1 and len(total) == 3 and calm and not early_:
                     ie = loc(ast.IfExp(test=st.test, body=a_.value, orelse=b_.value), st)
                     for n in ast.walk(nxt):
                         for f_, val in ast.iter_fields(n):
@@ -1951,6 +1955,18 @@ def _star_displays(fn, counts):
     S().visit(fn)
 
 
+_PURE_FUNCS = {"len", "isinstance", "issubclass", "getattr", "hasattr", "str", "repr", "tuple", "list", "dict", "set", "frozenset", "sorted", "min", "max", "any", "all",
+               "sum", "type", "id", "bool", "int", "float", "callable", "iter", "enumerate", "zip", "reversed", "range", "format", "abs", "hash", "ord", "chr"}
+_PURE_METHODS = {"get", "items", "keys", "values", "copy", "startswith", "endswith", "split", "rsplit", "partition", "join", "format", "strip", "lstrip", "rstrip",
+                 "lower", "upper", "replace", "index", "count", "find", "isidentifier", "isdigit", "union", "intersection", "difference", "issubset", "issuperset"}
+
+
+def _pure_call(c):
+    """A call that only reads (builtins and the reading methods of str / dict / set / list): other expressions may be moved across it."""
+    f = c.func
+    return isinstance(f, ast.Name) and f.id in _PURE_FUNCS or isinstance(f, ast.Attribute) and f.attr in _PURE_METHODS
+
+
 def _single_use_temps(fn, counts):
     """`t = E` directly followed by the only use of t (t bound nowhere else): substitute E for t."""
     changed = True
@@ -2020,7 +2036,8 @@ def _single_use_temps(fn, counts):
                     for n in ast.walk(where):
                         if isinstance(n, ast.Call) and not any(x is use for x in ast.walk(n)):
                             epos = (getattr(n, "end_lineno", n.lineno), getattr(n, "end_col_offset", 0))
-                            if epos <= upos and not getattr(n, "_synth", False):
+                            only_reads = _pure_call(n) and not any(isinstance(x, (ast.Call, ast.Await, ast.Yield)) for x in ast.walk(st.value))
+                            if epos <= upos and not getattr(n, "_synth", False) and not only_reads:
                                 early = True
                     if early:
                         continue
